@@ -1,6 +1,7 @@
 import SwcVerif.Gen.AlgoResample
 import SwcVerif.Model.Resample
 import SwcVerif.Refine.PyArrays
+import SwcVerif.Props.C16
 import Mathlib.Algebra.Order.Field.Rat
 import Mathlib.Algebra.Order.Floor.Ring
 import Mathlib.Tactic.Linarith
@@ -198,5 +199,124 @@ theorem linResample_refines (rows : List (List Rat)) (lens : List Rat) (n : Nat)
     hc0, hc1, hc2, hc3, hi, finish, Option.map]
   rw [stack1_cols _ n (by simp [interp_length, linspace_length]) (by simp)]
   simp [linearResample, colsOf]
+
+
+/-! ### the isometric resampler -/
+
+theorem zipWithOpt_map {ι α β γ : Type} (f : α → β → Option γ) (a : ι → α) (b : ι → β) (c : ι → γ) :
+    ∀ l : List ι, (∀ x ∈ l, f (a x) (b x) = some (c x)) → zipWithOpt f (l.map a) (l.map b) = some (l.map c)
+  | [], _ => rfl
+  | x :: xs, h => by
+    simp only [List.map_cons, zipWithOpt, h x List.mem_cons_self,
+      zipWithOpt_map f a b c xs (fun y hy => h y (List.mem_cons_of_mem _ hy))]
+
+theorem eq_range_map (l : List Rat) (n : Nat) (h : l.length = n) : l = (List.range n).map (l.getD · 0) := by
+  subst h
+  apply List.ext_getElem
+  · simp
+  · intro i h1 h2
+    simp [List.getD_eq_getElem?_getD, List.getElem?_eq_getElem h1]
+
+theorem setColBlock_zero (n : Nat) (A : Nat → List Rat) (hA : ∀ i < n, (A i).length = 3) :
+    setColBlock (List.replicate n (List.replicate 4 (0 : Rat))) 3 ((List.range n).map A) = some ((List.range n).map fun i => A i ++ [0]) := by
+  have hb : broadcastRows ((List.range n).map A) (List.replicate n (List.replicate 4 (0 : Rat))).length = some ((List.range n).map A) := by
+    simp [broadcastRows, broadcastTo]
+  have hr : List.replicate n (List.replicate 4 (0 : Rat)) = (List.range n).map (fun _ => List.replicate 4 (0 : Rat)) := by
+    simp [List.map_const']
+  rw [setColBlock, hb, Option.bind_some, hr]
+  apply zipWithOpt_map
+  intro i hi
+  have h3 := hA i (List.mem_range.mp hi)
+  simp [broadcastTo, h3, List.replicate]
+
+theorem setCol_three (n : Nat) (B : Nat → List Rat) (x : Nat → Rat) (hB : ∀ i < n, (B i).length = 4) :
+    setCol ((List.range n).map B) (3 : Int) ((List.range n).map x) = some ((List.range n).map fun i => (B i).set 3 (x i)) := by
+  have hb : broadcastRows ((List.range n).map x) ((List.range n).map B).length = some ((List.range n).map x) := by
+    simp [broadcastRows, broadcastTo]
+  rw [setCol, hb, Option.bind_some]
+  apply zipWithOpt_map
+  intro i hi
+  exact setIdx_nat (B i) 3 (x i) (by rw [hB i (List.mem_range.mp hi)]; omega)
+
+theorem range3 : Py.range (3 : Int) = [0, 1, 2] := by decide
+
+theorem lastD_nonneg (lens : List Rat) (hpos : ∀ l ∈ lens, 0 ≤ l) : 0 ≤ (cumdist lens).getLastD 0 := by
+  have h := (C16.cumdist_spec lens hpos).2.2.1
+  rw [List.getLastD_eq_getLast?, h]
+  simp only [Option.getD_some]
+  clear h
+  induction lens with
+  | nil => simp
+  | cons a t ih =>
+    have := hpos a List.mem_cons_self
+    have := ih (fun x hx => hpos x (List.mem_cons_of_mem _ hx))
+    simp only [List.sum_cons]; linarith
+
+theorem ceil_count (L d : Rat) (hL : 0 ≤ L) (hd : 0 < d) : (L / d).ceil + 1 = ((isoCount L d : Nat) : Int) := by
+  have : (-1 : Int) < (L / d).ceil := Rat.lt_ceil_iff.mpr (by have := div_nonneg hL hd.le; push_cast; linarith)
+  unfold isoCount; omega
+
+theorem isoPositions_length (L d : Rat) (adj : Bool) : (isoPositions L d adj).length = isoCount L d := by
+  unfold isoPositions
+  simp only []
+  split
+  · exact linspace_length _ _
+  · simp [Resample.arange, isoCount]
+
+theorem setColBlock_xyz (N : Nat) (X Y Z : List Rat) :
+    setColBlock (List.replicate N (List.replicate 4 (0 : Rat))) 3 (rowsOf [X, Y, Z] N) =
+      some ((List.range N).map fun i => [X.getD i 0, Y.getD i 0, Z.getD i 0, 0]) := by
+  rw [rowsOf, setColBlock_zero N _ (fun i _ => by simp)]
+  simp
+
+theorem setCol_r (N : Nat) (X Y Z R : List Rat) (hR : R.length = N) :
+    setCol ((List.range N).map fun i => [X.getD i 0, Y.getD i 0, Z.getD i 0, 0]) (3 : Int) R = some (rowsOf [X, Y, Z, R] N) := by
+  conv => lhs; rw [eq_range_map R N hR]
+  rw [setCol_three N _ _ (fun i _ => by simp)]
+  simp [rowsOf]
+
+/-- **`BranchIsometricResampler.resample` as translated from the source equals the model `Resample.isoResample`**: for every `(N, 4)` array
+(by rows), segment lengths `lens` (one per consecutive pair of rows, `≥ 0`), every spacing `d > 0` and both values of `adjust_last_gap`, the
+generated function returns — without raising — the `(⌈L/d⌉ + 1, 4)` array whose columns are the model's resampled columns. -/
+theorem isoResample_refines (rows : List (List Rat)) (lens : List Rat) (d : Rat) (adj : Bool)
+    (hrow : ∀ r ∈ rows, r.length = 4) (hlen : lens.length + 1 = rows.length) (hpos : ∀ l ∈ lens, 0 ≤ l) (hd : 0 < d) :
+    iso_resample ratFld rows lens d adj =
+      some (rowsOf (isoResample lens (colsOf rows) d adj) (isoCount ((cumdist lens).getLastD 0) d)) := by
+  have hne : cumdist lens ≠ [] := by intro h; have := cumdist_length lens; rw [h] at this; simp at this
+  have hc : ∀ j : Nat, j < 4 → Py.col rows (j : Int) = some (rows.map (·.getD j 0)) :=
+    fun j hj => col_nat rows j (fun r hr => by rw [hrow r hr]; exact hj)
+  have hc0 : Py.col rows (0 : Int) = some (rows.map (·.getD 0 0)) := hc 0 (by omega)
+  have hc1 : Py.col rows (1 : Int) = some (rows.map (·.getD 1 0)) := hc 1 (by omega)
+  have hc2 : Py.col rows (2 : Int) = some (rows.map (·.getD 2 0)) := hc 2 (by omega)
+  have hc3 : Py.col rows (3 : Int) = some (rows.map (·.getD 3 0)) := hc 3 (by omega)
+  have hi : ∀ (xs : List Rat) (j : Nat), Py.interp xs (cumdist lens) (rows.map (·.getD j 0)) =
+      some (Resample.interp xs (cumdist lens) (rows.map (·.getD j 0))) :=
+    fun xs j => interp_eq xs _ _ (by rw [cumdist_length, List.length_map, hlen]) hne (nondecr_cumdist lens hpos)
+  have hR : isoResample lens (colsOf rows) d adj =
+      (colsOf rows).map (Resample.interp (isoPositions ((cumdist lens).getLastD 0) d adj) (cumdist lens)) := rfl
+  rw [hR]
+  generalize hL : (cumdist lens).getLastD 0 = L
+  have hL0 : 0 ≤ L := hL ▸ lastD_nonneg lens hpos
+  have hcnt : Fld.ceil (L / d) + 1 = ((isoCount L d : Nat) : Int) := ceil_count L d hL0 hd
+  have hfull : full2 ((isoCount L d : Nat) : Int) (4 : Int) (0 : Rat) = some (List.replicate (isoCount L d) (List.replicate 4 0)) :=
+    full2_nat (isoCount L d) 4 0
+  have hcond : (adj && decide (((isoCount L d : Nat) : Int) > 1)) = (adj && decide (isoCount L d > 1)) := by
+    congr 1; simp only [gt_iff_lt, decide_eq_decide]; omega
+  have hplen := isoPositions_length L d adj
+  have hil : ∀ fp, (Resample.interp (isoPositions L d adj) (cumdist lens) fp).length = isoCount L d :=
+    fun fp => by rw [interp_length, hplen]
+  have htr := fun (X Y Z : List Rat) (h : ∀ c ∈ [X, Y, Z], c.length = isoCount L d) => transpose2_cols [X, Y, Z] (isoCount L d) h (by simp)
+  by_cases hb : (adj && decide (isoCount L d > 1)) = true
+  · have hp : Resample.linspace L (isoCount L d) = isoPositions L d adj := by simp [isoPositions, hb]
+    simp only [iso_resample, iso_resample.body, iso_resample.for1, seq, Py.bind, Py.bindS, List.cons_append, List.nil_append, cumsumK_cumdist,
+      idx_last _ (0 : Rat) hne, hL, fdiv_eq _ _ hd, hcnt, hcond, hb, if_true, linspace0_eq, hp, hfull, range3, forEach, hc0, hc1, hc2, hi]
+    rw [htr _ _ _ (by simp [hil])]
+    simp only [setColBlock_xyz, hc3, hi, setCol_r _ _ _ _ _ (hil _), finish, Option.map, colsOf, List.map_cons, List.map_nil]
+  · have hp : Resample.arange L d ++ [L] = isoPositions L d adj := by simp [isoPositions, hb]
+    simp only [iso_resample, iso_resample.body, iso_resample.for1, seq, Py.bind, Py.bindS, List.cons_append, List.nil_append, cumsumK_cumdist,
+      idx_last _ (0 : Rat) hne, hL, fdiv_eq _ _ hd, hcnt, hcond, hb, arange0_eq L d hd, hp, hfull, range3, forEach, hc0, hc1, hc2, hi,
+      Bool.false_eq_true, if_false]
+    rw [htr _ _ _ (by simp [hil])]
+    simp only [setColBlock_xyz, hc3, hi, setCol_r _ _ _ _ _ (hil _), finish, Option.map, colsOf, List.map_cons, List.map_nil]
 
 end RefineResample
